@@ -44,6 +44,12 @@ func Reduce(e1 CValueEnclosure, e2 CValueEnclosure, fun AggregateFunctions) (CVa
 		return e1, nil
 	}
 
+	// running min/max is a string (column of mixed type) and a number arrives:
+	// same rule as ReduceMinMax in the other direction, the number wins
+	if e1.Dtype == SS_DT_STRING && e2.IsNumeric() && (fun == Min || fun == Max) {
+		return ReduceMinMax(e1, e2, fun == Min)
+	}
+
 	// Convert to float if needed
 	if e1.Dtype == SS_DT_FLOAT && e2.Dtype != SS_DT_FLOAT {
 		switch e2.Dtype {
